@@ -238,6 +238,18 @@ fn generate(cli: &Cli) -> Vec<Case> {
                     }
                     outer_values.push(("overlong-zero".into(), vec![0x80, 0x80, 0x80, 0x80, 0x00]));
                     outer_values.push(("six-ff".into(), vec![0xff; 6]));
+                    // five bytes whose last one still announces a sixth: not a VarInt at all
+                    outer_values.push(("fifth-byte-continues/1".into(), vec![0x81, 0x80, 0x80, 0x80, 0x80]));
+                    outer_values.push((format!("fifth-byte-continues/{n}"), {
+                        let mut v = varint_bytes(n);
+                        while v.len() < 5 {
+                            let last = v.len() - 1;
+                            v[last] |= 0x80;
+                            v.push(0x00);
+                        }
+                        v[4] |= 0x80;
+                        v
+                    }));
                     for (name, prefix) in outer_values {
                         let declared: Option<i64> = name.parse::<i64>().ok();
                         let bad = match declared {
@@ -282,6 +294,14 @@ fn generate(cli: &Cli) -> Vec<Case> {
                                 out.push(Case { sc: sc_v, state: state.clone(), class: "inserted-varint", detail: format!("{v}@{at}{}", if fix_outer { "" } else { "/stale-outer" }), must_err: false, refuse_after: None, max_frame });
                             }
                         }
+                    }
+                    // 3a. a VarInt field of five bytes whose last byte still has the continuation bit
+                    if pos.state == "handshake" && inner.len() > 3 {
+                        // inner = id, protocol version (770 = 82 06), address, port, next state
+                        let mut m = vec![inner[0], 0xff, 0xff, 0xff, 0xff, 0xff];
+                        m.extend_from_slice(&inner[3..]);
+                        let sc_v = apply(&sc, pos, vec![Out::Frame(reframe(&m))], false);
+                        out.push(Case { sc: sc_v, state: state.clone(), class: "varint-field-fifth-byte-continues", detail: "protocol-version".into(), must_err: true, refuse_after: None, max_frame });
                     }
                     // 3b. a string field whose bytes are not UTF-8: malformed beyond doubt
                     if matches!(pos.state, "handshake" | "login-start" | "login-session-cookie" | "login-auth-cookie" | "encrypted-client-information") {
